@@ -16,7 +16,9 @@ from gen import scopeprogs as sp
 
 def main():
     chk = vf.Check("C19")
-    cases, res = vf.mc_cases(chk, "MC_C19", actions=["ResolveRef", "Done"], workers=8)
+    thorough = vf.tier() == "thorough"
+    cases, res = vf.mc_cases(chk, "MC_C19", cfg_edits=({"PairShadows = FALSE": "PairShadows = TRUE"} if thorough else None),
+                             actions=["ResolveRef", "Done"], workers=12, heap="12g")
     crate = vf.Crate(os.path.join(chk.work, "crate"), "c19cases", deps=["vt", "async-trait"])
     nostd = vf.Crate(os.path.join(chk.work, "nostd"), "c19nostd", lib=True)
     nostd.crate_attrs = "#![no_std]\n#![allow(warnings)]\n"
@@ -73,7 +75,7 @@ def main():
                        "entraited trait with a by-value receiver, entraited trait / concrete-dependency fn whose own method is called as_ref, "
                        "static dependency inversion, dyn dependency inversion by ref (sync, and async with async_trait) and by Borrow) x scope variants {clean, each of 18 names shadowed (Impl, core, entrait, Future, Send, "
                        "Sync, AsRef, Borrow, Sized, Box, Option, Result, std, a value named like the trait, a value named EntraitT, blanket traits with methods as_ref / borrow / into_inner), all shadowed, "
-                       "trait named Send / Sync, delegation trait of the static dependency inversion named AsRef / Send / Sync / Impl / Future, #![no_std] library, #![no_implicit_prelude] module}; invoked by absolute path with no imports; non-trivial = not the clean variant")
+                       + ("every pair of them shadowed together, " if thorough else "") + "trait named Send / Sync, delegation trait of the static dependency inversion named AsRef / Send / Sync / Impl / Future, #![no_std] library, #![no_implicit_prelude] module}; invoked by absolute path with no imports; non-trivial = not the clean variant")
     chk.cov["exhaustive"] = True
     vf.report_drift(chk, drift, lambda d: f"prog={ev[d['case']]['prog']} kind={ev[d['case']]['kind']} shadows={ev[d['case']]['shadows']} diag={ev[d['case']]['diag']}")
     chk.cov["samples"] = [{k: e[k] for k in ("prog", "kind", "shadows", "name", "compiled", "result", "avail")} for e in events[::45][:5]]
